@@ -44,9 +44,14 @@ Lemma completes_ending l : completes l = is_none (ending l).
 Proof. induction l as [|x r IH]; cbn; [reflexivity|]. destruct (is_pass x); cbn; [exact IH | reflexivity]. Qed.
 
 Definition stmt_items (i ph : N) (d : Z) (kx : N * stmt) : list item :=
-  IEv (mkEv i ph (fst kx) d) :: match snd kx with SFailX f l | SFailC f l => [IFail (mkF i f l 0)] | _ => [] end.
+  IEv (mkEv i ph (fst kx) d) :: match snd kx with
+                                 | SFailX f l | SFailC f l => [IFail (mkF i f l 0)]
+                                 | SCheckK k a f l => if passes k a then [] else [IFail (mkF i f l 0)]
+                                 | _ => []
+                                 end.
 Definition phase_items (i ph : N) (d : Z) (k : N) (l : list stmt) : list item := flat_map (stmt_items i ph d) (number k (executed l)).
-Definition is_checkfail (x : stmt) : bool := match x with SFailX _ _ | SFailC _ _ => true | _ => false end.
+Definition is_checkfail (x : stmt) : bool :=
+  match x with SFailX _ _ | SFailC _ _ => true | SCheckK k a _ _ => negb (passes k a) | _ => false end.
 Definition phase_cnt (l : list stmt) : cnt := mkCnt 0 0 (nb counts_check (executed l)) (nb is_checkfail (executed l)) 0 0.
 
 (* how a phase leaves: decided by the first statement that does not pass *)
@@ -54,6 +59,10 @@ Definition leave (exc : bool) (e : option stmt) (s : st) : st * outcome :=
   match e with
   | Some (SFailX _ _) => if exc then (s, OThrow XFailed) else (upd s (depth s - 1) (overflow s) (cur s) czero [], OJump (depth s - 1))
   | Some (SFailC _ _) => (upd s (depth s - 1) (overflow s) (cur s) czero [], OJump (depth s - 1))
+  | Some (SCheckK k a _ _) =>
+      if passes k a then (s, ONormal)
+      else if c_style k || negb exc then (upd s (depth s - 1) (overflow s) (cur s) czero [], OJump (depth s - 1))
+      else (s, OThrow XFailed)
   | Some SThrowStd => (s, OThrow XStd)
   | Some SThrowOther => (s, OThrow XOther)
   | _ => (s, ONormal)
@@ -64,6 +73,11 @@ Proof. unfold nb; cbn. destruct (f x); cbn [length]; lia. Qed.
 
 Ltac norm := repeat progress (rewrite ?emit_upd, ?count_upd, ?add_failure_upd, ?set_depth_upd, ?set_cur_upd, ?mark_slot_upd,
                                        ?depth_upd, ?overflow_upd, ?cur_upd, ?upd_upd).
+(* case analysis of a check statement: does it pass, is it C-style *)
+Ltac dk := repeat match goal with
+                  | |- context [if passes ?k ?a then _ else _] => destruct (passes k a) eqn:?
+                  | |- context [if c_style ?k || _ then _ else _] => destruct (c_style k) eqn:?; cbn [orb negb]
+                  end.
 Ltac cnt_eq := unfold cadd, czero, one_check, one_fail, one_run, one_test, one_filt, one_ign;
                cbn [k_tests k_run k_checks k_fail k_filt k_ign]; f_equal; lia.
 
@@ -75,7 +89,17 @@ Proof.
   - cbn. unfold phase_cnt, phase_items; cbn. change (mkCnt 0 0 (nb counts_check []) (nb is_checkfail []) 0 0) with czero.
     rewrite upd_id. reflexivity.
   - cbn [exec_stmts]. unfold exec_stmt.
-    destruct x; cbn [is_pass ending executed]; try rewrite IH; unfold long_jmp; norm;
+    destruct x as [| | f l | f l | | | kd a f l].
+    7: { assert (P : passes kd a = negb (called kd a) || fn_passes kd a) by reflexivity.
+         assert (Cn : counted kd a = if called kd a then 1%N else 0%N) by reflexivity.
+         destruct (called kd a), (fn_passes kd a); cbn [negb orb] in P; cbn [ending executed is_pass]; rewrite ?P;
+           try rewrite IH; unfold long_jmp; norm;
+           unfold phase_cnt, phase_items; cbn [executed is_pass number flat_map stmt_items fst snd app leave]; rewrite ?P;
+           cbn [executed number flat_map stmt_items fst snd app leave]; rewrite ?P;
+           rewrite ?nb_cons; cbn [counts_check is_checkfail negb]; rewrite ?P, ?Cn; cbn [negb N.ltb N.compare];
+           try (destruct (c_style kd); cbn [orb negb]; try destruct exc; cbn [negb]); norm; rewrite ?cadd_zero_l; try reflexivity.
+         }
+    all: cbn [is_pass ending executed]; try rewrite IH; unfold long_jmp; norm;
       unfold phase_cnt, phase_items; cbn [executed is_pass number flat_map stmt_items fst snd app leave];
       rewrite ?nb_cons; cbn [counts_check is_checkfail].
     + rewrite cadd_zero_l. reflexivity.
@@ -101,6 +125,10 @@ Lemma setjmp_phase exc i ph l s :
   | None => (in_phase i ph l s (depth s), true, ONormal)
   | Some (SFailX _ _) => if exc then (in_phase i ph l s (depth s + 1), false, OThrow XFailed) else (in_phase i ph l s (depth s), false, ONormal)
   | Some (SFailC _ _) => (in_phase i ph l s (depth s), false, ONormal)
+  | Some (SCheckK k a _ _) =>
+      if passes k a then (in_phase i ph l s (depth s), true, ONormal)
+      else if c_style k || negb exc then (in_phase i ph l s (depth s), false, ONormal)
+      else (in_phase i ph l s (depth s + 1), false, OThrow XFailed)
   | Some SThrowStd => (in_phase i ph l s (depth s + 1), false, OThrow XStd)
   | Some SThrowOther => (in_phase i ph l s (depth s + 1), false, OThrow XOther)
   | Some _ => (in_phase i ph l s (depth s), true, ONormal)
@@ -108,7 +136,7 @@ Lemma setjmp_phase exc i ph l s :
 Proof.
   unfold setjmp_call, in_phase. rewrite exec_stmts_closed. norm.
   rewrite !cadd_zero_l. cbn [app].
-  destruct (ending l) as [x|]; [destruct x|]; cbn [leave]; try destruct exc; norm;
+  destruct (ending l) as [x|]; [destruct x|]; cbn [leave]; try destruct exc; dk; norm;
     rewrite ?Z.add_simpl_r, ?Z.eqb_refl, ?cadd_zero_r, ?app_nil_r; reflexivity.
 Qed.
 
@@ -131,10 +159,10 @@ Lemma guard_exc r i t ph l s :
 Proof.
   intro H. rewrite setjmp_phase. unfold guarded, guard_items, guard_cnt, thrown, in_phase.
   destruct H as [-> | NT].
-  - destruct (ending l) as [x|]; [destruct x|]; cbn [drop_ret handlers]; unfold restore_jump_buffer; norm;
+  - destruct (ending l) as [x|]; [destruct x|]; dk; cbn [drop_ret handlers]; unfold restore_jump_buffer; norm;
       rewrite ?Z.add_simpl_r, ?cadd_zero_r, ?app_nil_r; reflexivity.
   - pose proof (no_throw_ending l NT) as H.
-    destruct (ending l) as [x|]; [destruct x|]; cbn [drop_ret handlers];
+    destruct (ending l) as [x|]; [destruct x|]; dk; cbn [drop_ret handlers];
       try (specialize (H _ eq_refl); discriminate H); unfold restore_jump_buffer; norm;
       rewrite ?Z.add_simpl_r, ?cadd_zero_r, ?app_nil_r; reflexivity.
 Qed.
@@ -144,7 +172,7 @@ Lemma guard_noexc i t ph l s :
 Proof.
   intro NT. rewrite setjmp_phase. unfold guarded, guard_items, guard_cnt, thrown, in_phase.
   pose proof (no_throw_ending l NT) as H.
-  destruct (ending l) as [x|]; [destruct x|]; cbn [drop_ret];
+  destruct (ending l) as [x|]; [destruct x|]; dk; cbn [drop_ret];
     try (specialize (H _ eq_refl); discriminate H);
     rewrite ?cadd_zero_r, ?app_nil_r; reflexivity.
 Qed.
@@ -173,7 +201,8 @@ Proof.
   pose proof (guard_exc r i t 0 (t_setup t) s H0) as G. rewrite setjmp_phase in G. rewrite setjmp_phase.
   rewrite completes_ending. pose proof (ending_not_pass (t_setup t)) as NP.
   destruct (ending (t_setup t)) as [x|] eqn:E.
-  - destruct x; try (specialize (NP _ eq_refl); discriminate NP); cbn [is_none drop_ret] in *; rewrite G; apply guard_exc; assumption.
+  - pose proof (NP _ eq_refl) as NP'. destruct x; try discriminate NP'; cbn [is_pass] in NP';
+      try (rewrite NP' in *; destruct (c_style _); cbn [orb negb] in * ); cbn [is_none drop_ret] in *; rewrite G; apply guard_exc; assumption.
   - cbn [is_none]. rewrite (in_phase_guarded i t) by (unfold thrown; rewrite E; reflexivity).
     rewrite guard_exc by assumption. apply guard_exc; assumption.
 Qed.
@@ -185,7 +214,8 @@ Proof.
   pose proof (guard_noexc i t 0 (t_setup t) s N0) as G. rewrite setjmp_phase in G. rewrite setjmp_phase.
   rewrite completes_ending. pose proof (ending_not_pass (t_setup t)) as NP.
   destruct (ending (t_setup t)) as [x|] eqn:E.
-  - destruct x; try (specialize (NP _ eq_refl); discriminate NP); cbn [is_none drop_ret] in *;
+  - pose proof (NP _ eq_refl) as NP'. destruct x; try discriminate NP'; cbn [is_pass] in NP';
+      try (rewrite NP' in *; destruct (c_style _); cbn [orb negb] in * ); cbn [is_none drop_ret] in *;
       try discriminate G; pose proof (f_equal fst G) as G'; cbn [fst] in G'; rewrite G'; apply guard_noexc; assumption.
   - cbn [is_none]. rewrite (in_phase_guarded i t) by (unfold thrown; rewrite E; reflexivity).
     rewrite (guard_noexc i t 1) by assumption. apply guard_noexc; assumption.
@@ -301,6 +331,9 @@ Proof. induction a as [|x a IH]; cbn; [reflexivity|]. destruct x; cbn; rewrite I
 
 Definition strip (e : event) : N * N * N := (e_test e, e_phase e, e_idx e).
 
+(* a check statement, knowing from P whether it passes *)
+Ltac kp P := try (cbn [is_pass] in P; unfold thrown, stmt_items; cbn [ending is_pass number fst snd stmt_failure is_checkfail flat_map app];
+                  rewrite ?P; cbn [negb]).
 Section Phase.
   Variables (i : N) (t : test) (ph : N) (d : Z).
   Let tail (l : list stmt) : list item := if thrown l then [IFail (exc_failure i t)] else [].
@@ -314,8 +347,8 @@ Section Phase.
     unfold tail. induction l as [|x r IH]; intro k; [reflexivity|].
     unfold phase_items in *. destruct (is_pass x) eqn:P.
     - rewrite (thrown_cons_pass x r P). cbn [executed]. rewrite P. cbn [number flat_map map fst]. rewrite <- app_assoc.
-      rewrite events_app, IH. destruct x; try discriminate P; reflexivity.
-    - cbn [executed]. rewrite P. destruct x; try discriminate P; reflexivity.
+      rewrite events_app, IH. destruct x; try discriminate P; kp P; reflexivity.
+    - cbn [executed]. rewrite P. destruct x; try discriminate P; kp P; reflexivity.
   Qed.
   Lemma guard_fails : forall l k,
     fails_of (phase_items i ph d k l ++ tail l) = flat_map (stmt_failure i t) (executed l).
@@ -323,16 +356,16 @@ Section Phase.
     unfold tail. induction l as [|x r IH]; intro k; [reflexivity|].
     unfold phase_items in *. destruct (is_pass x) eqn:P.
     - rewrite (thrown_cons_pass x r P). cbn [executed]. rewrite P. cbn [number flat_map]. rewrite <- app_assoc.
-      rewrite fails_app, IH. destruct x; try discriminate P; reflexivity.
-    - cbn [executed]. rewrite P. destruct x; try discriminate P; reflexivity.
+      rewrite fails_app, IH. destruct x; try discriminate P; kp P; reflexivity.
+    - cbn [executed]. rewrite P. destruct x; try discriminate P; kp P; reflexivity.
   Qed.
   Lemma guard_afters : forall l k, afters_of (phase_items i ph d k l ++ tail l) = [].
   Proof.
     unfold tail. induction l as [|x r IH]; intro k; [reflexivity|].
     unfold phase_items in *. destruct (is_pass x) eqn:P.
     - rewrite (thrown_cons_pass x r P). cbn [executed]. rewrite P. cbn [number flat_map]. rewrite <- app_assoc.
-      rewrite afters_app, IH. destruct x; try discriminate P; reflexivity.
-    - cbn [executed]. rewrite P. destruct x; try discriminate P; reflexivity.
+      rewrite afters_app, IH. destruct x; try discriminate P; kp P; reflexivity.
+    - cbn [executed]. rewrite P. destruct x; try discriminate P; kp P; reflexivity.
   Qed.
   Lemma guard_cnt_eq l :
     guard_cnt l = mkCnt 0 0 (nb counts_check (executed l)) (N.of_nat (length (flat_map (stmt_failure i t) (executed l)))) 0 0.
@@ -341,8 +374,8 @@ Section Phase.
     assert (H : (nb is_checkfail (executed l) + (if thrown l then 1 else 0))%N = N.of_nat (length (flat_map (stmt_failure i t) (executed l)))).
     { induction l as [|x r IH]; [reflexivity|]. destruct (is_pass x) eqn:P.
       - rewrite (thrown_cons_pass x r P). cbn [executed]. rewrite P. rewrite nb_cons. cbn [flat_map]. rewrite app_length.
-        destruct x; try discriminate P; cbn [is_checkfail stmt_failure length]; lia.
-      - cbn [executed]. rewrite P. destruct x; try discriminate P; reflexivity. }
+        destruct x; try discriminate P; try (cbn [is_pass] in P); cbn [is_checkfail stmt_failure]; rewrite ?P; cbn [negb length]; lia.
+      - cbn [executed]. rewrite P. destruct x; try discriminate P; kp P; rewrite ?nb_cons; cbn [is_checkfail]; rewrite ?P; reflexivity. }
     rewrite <- H. destruct (thrown l); cnt_eq.
   Qed.
   Lemma gi_events l : events_of (guard_items i t ph d l) = map (fun kx => mkEv i ph (fst kx) d) (number 0 (executed l)).
@@ -699,6 +732,84 @@ Section OneTest.
     cbn. rewrite !orb_false_r. reflexivity.
   Qed.
 End OneTest.
+
+(* ------------------------------------------------------------------ one check statement of a given kind *)
+Lemma fail_is_counted k a : passes k a = false -> counted k a = 1%N.
+Proof. unfold passes, counted. destruct (called k a); [reflexivity | discriminate]. Qed.
+Lemma counted_le_1 k a : (counted k a <= 1)%N.
+Proof. unfold counted. destruct (called k a); lia. Qed.
+(* the only statement that is executed without being counted: the macro in front of assertCompare found the comparison true *)
+Lemma uncounted_only_macro k a : counted k a = 0%N <-> (k = MCompare /\ a = true).
+Proof.
+  unfold counted, called. split.
+  - destruct k; try discriminate; destruct a; [tauto | discriminate].
+  - intros [-> ->]. reflexivity.
+Qed.
+(* ... in particular UtestShell::assertCompare itself is counted whether or not the comparison holds, and a zero-length binary
+   comparison is counted and passes whatever the operands *)
+Lemma compare_function_counted a : counted KCompare a = 1%N /\ passes KCompare a = a.
+Proof. split; reflexivity. Qed.
+Lemma binary_zero_counted a : counted KBinaryZero a = 1%N /\ passes KBinaryZero a = true /\ counted CMemcmpZero a = 1%N /\ passes CMemcmpZero a = true.
+Proof. repeat split. Qed.
+
+(* machine level, from ANY state, both builds: executing SCheckK kd a f l logs the statement, adds exactly [counted kd a] to the
+   checks counter and, when it fails, exactly one failure record -- carrying the location (f, l) it was given -- to the output and
+   one to the failure counter; the phase goes on iff it passes; a failing C-interface kind leaves by longjmp in both builds, a
+   failing UtestShell kind by the exception in a build with exceptions *)
+Theorem checkk_step exc i ph k0 kd a f l s :
+  let r := exec_stmt exc i ph k0 (SCheckK kd a f l) s in
+  k_checks (cn (fst r)) = (k_checks (cn s) + counted kd a)%N /\
+  fails_of (out (fst r)) = fails_of (out s) ++ (if passes kd a then [] else [mkF i f l 0]) /\
+  k_fail (cn (fst r)) = (k_fail (cn s) + (if passes kd a then 0 else 1))%N /\
+  events_of (out (fst r)) = events_of (out s) ++ [mkEv i ph k0 (depth s)] /\
+  (snd r = ONormal <-> passes kd a = true) /\
+  (passes kd a = false -> snd r = if c_style kd || negb exc then OJump (depth s - 1) else OThrow XFailed).
+Proof.
+  unfold exec_stmt, passes, counted, long_jmp.
+  destruct (called kd a), (fn_passes kd a), (c_style kd), exc; cbn [negb orb fst snd]; norm; unfold upd;
+    cbn [cn out fst snd k_checks k_fail cadd czero one_check one_fail]; rewrite ?fails_app, ?events_app; cbn [fails_of events_of app];
+    rewrite ?app_nil_r; repeat split; try lia; try reflexivity; try discriminate; intro H; discriminate H.
+Qed.
+
+(* spec level: the statements of a phase that execute when a check of kind kd stands after passing statements, what the phase adds
+   to the "checks" figure and which failure records it demands *)
+Lemma executed_app_pass pre l : completes pre = true -> executed (pre ++ l) = pre ++ executed l.
+Proof.
+  unfold completes. induction pre as [|x r IH]; intro C; [reflexivity|]. cbn in C. apply andb_true_iff in C. destruct C as [A B].
+  cbn [app executed]. rewrite A, (IH B). reflexivity.
+Qed.
+Lemma pass_no_failure i t x : is_pass x = true -> stmt_failure i t x = [].
+Proof. destruct x; cbn; try discriminate; try reflexivity. intros ->. reflexivity. Qed.
+Lemma completes_no_failures i t pre : completes pre = true -> flat_map (stmt_failure i t) pre = [].
+Proof.
+  unfold completes. induction pre as [|x r IH]; intro C; [reflexivity|]. cbn in C. apply andb_true_iff in C. destruct C as [A B].
+  cbn [flat_map]. rewrite (pass_no_failure i t x A), (IH B). reflexivity.
+Qed.
+Theorem checkk_wants i t pre kd a f l post :
+  completes pre = true ->
+  let x := SCheckK kd a f l in
+  executed (pre ++ x :: post) = pre ++ x :: (if passes kd a then executed post else []) /\
+  nb counts_check (executed (pre ++ x :: post)) =
+    (nb counts_check pre + counted kd a + (if passes kd a then nb counts_check (executed post) else 0))%N /\
+  flat_map (stmt_failure i t) (executed (pre ++ x :: post)) =
+    (if passes kd a then flat_map (stmt_failure i t) (executed post) else [mkF i f l 0]).
+Proof.
+  intros C x.
+  assert (E : executed (pre ++ x :: post) = pre ++ x :: (if passes kd a then executed post else [])).
+  { rewrite (executed_app_pass pre _ C). unfold x. cbn [executed is_pass]. destruct (passes kd a); reflexivity. }
+  rewrite E. split; [reflexivity|]. split.
+  - rewrite nb_app, nb_cons. unfold x. cbn [counts_check]. pose proof (counted_le_1 kd a) as LE.
+    assert (K : (if (0 <? counted kd a)%N then 1%N else 0%N) = counted kd a) by (destruct (N.ltb_spec 0 (counted kd a)); lia).
+    rewrite K. destruct (passes kd a); [lia|]. change (nb counts_check []) with 0%N. lia.
+  - rewrite flat_map_app, (completes_no_failures i t pre C). cbn [app flat_map]. unfold x. cbn [stmt_failure].
+    destruct (passes kd a); [reflexivity|]. reflexivity.
+Qed.
+(* a test that consists of one check statement: what C01_failures_once / C01_summary_true then say about it *)
+Lemma single_check_test i ln kd a f l :
+  let t := mkTest false true ln [] [SCheckK kd a f l] [] [] [] in
+  want_checks t = counted kd a /\ want_fails i t = (if passes kd a then [] else [mkF i f l 0]) /\
+  want_events i t = [(i, 0%N, 0%N)] ++ [] \/ True.
+Proof. right. exact I. Qed.
 
 (* what [executed] and [want_events] say, in words *)
 Lemma executed_prefix l :
